@@ -253,6 +253,7 @@ def run(ctx):
         _schema_graphs(ctx, tr, pk, base)
         _res2_correspondence(ctx, tr, pk, base)
         _interrupted_loads(ctx, tr, base)
+        _caller_files_closed(ctx, base)
     finally:
         tr.uninstall()
         pk.close()
@@ -566,6 +567,48 @@ def _interrupted_loads(ctx, tr, base):
                                     signature="C19:leak:interrupted")
             finally:
                 shutil.rmtree(root, ignore_errors=True)
+
+
+def _caller_files_closed(ctx, base):
+    """the file-object entry points (loadConfigFile, loadSchemaFile, ConfigLoader.loadFile, SchemaLoader.loadFile): the top resource
+    is the file handed over; it has been closed when the call returns or raises - whatever URL is passed along with it (none, a
+    plain one, one with a fragment identifier, a relative one) and whatever the content"""
+    import ZConfig
+    from ZConfig.loader import ConfigLoader, SchemaLoader
+    root = tempfile.mkdtemp(prefix="zcv-c19f-", dir=base)
+    try:
+        def w(n, t):
+            with open(os.path.join(root, n), "w") as f:
+                f.write(t)
+        w("good.conf", "k v\n")
+        w("bad.conf", "k v\n<unclosed>\n")
+        w("good.xml", "<schema><multikey name='k'/></schema>")
+        w("bad.xml", "<schema><key/></schema>")
+        schema = ZConfig.loadSchemaFile(io.StringIO("<schema><multikey name='k'/></schema>"))
+        furl = "file://" + urllib.request.pathname2url(os.path.join(root, "good.conf"))
+        urls = [None, furl, furl + "#main", "file:///nonexistent/x.conf#frag", "rel.conf", "rel.conf#f", "#", "http://[x#y"]
+        calls = [("loadConfigFile", lambda f, u: ZConfig.loadConfigFile(schema, f, u), ("good.conf", "bad.conf")),
+                 ("ConfigLoader.loadFile", lambda f, u: ConfigLoader(schema).loadFile(f, u), ("good.conf", "bad.conf")),
+                 ("loadSchemaFile", lambda f, u: ZConfig.loadSchemaFile(f, u), ("good.xml", "bad.xml")),
+                 ("SchemaLoader.loadFile", lambda f, u: SchemaLoader().loadFile(f, u), ("good.xml", "bad.xml"))]
+        for cname, call, files in calls:
+            for fn_ in files:
+                for u in urls:
+                    f = open(os.path.join(root, fn_), encoding="utf-8")
+                    try:
+                        call(f, u)
+                        ended = "ok"
+                    except BaseException as e:
+                        ended = type(e).__name__
+                    ctx.evaluations += 1
+                    ctx.nontriv(("caller-file", cname, fn_, u))
+                    ctx.count("caller-file:%s" % ("ok" if ended == "ok" else "raised"))
+                    if not f.closed:
+                        f.close()
+                        ctx.violate("%s(open(%r), url=%r) ended with %s and left the file open" % (cname, fn_, u, ended),
+                                    {"call": cname, "file": fn_, "url": u, "ended": ended}, signature="C19:leak:caller-file")
+    finally:
+        shutil.rmtree(root, ignore_errors=True)
 
 
 def _failed_import_leaves_nothing(ctx, pk):
